@@ -116,7 +116,10 @@ pp_shm_create_handle (PShm	*shm,
 			return FALSE;
 		}
 
-		shm->size = (psize) stat_buf.st_size;
+		/* Keep a smaller non-zero request, so that exactly the mapped
+		 * length is unmapped later */
+		if (shm->size == 0 || (psize) stat_buf.st_size < shm->size)
+			shm->size = (psize) stat_buf.st_size;
 	} else {
 		if (P_UNLIKELY ((ftruncate (fd, (off_t) shm->size)) == -1)) {
 			p_error_set_error_p (error,
